@@ -61,7 +61,7 @@ def _static(repo):
 
 _static.needs_repo = True
 
-cfg("C01", assumptions=[ILAWS, VALID_GROUP, A_ENT, A_HKDF, "the Lean identity spake2_agree holds in any Z-module: the order-q subgroup of (Z/p)* with a*b mod p and a^(n mod q) is one by Lean smul_add/smul_mul/smul_mul_distrib/order_*_closed; the Ed25519 L-torsion is one by M-edgroup (T2, cited: associativity of the Edwards law)", "A-ae-empty: arbitrary_element(b'') is defined for the group (ground-checked for the shipped sets in C03/C18)"],
+cfg("C01", assumptions=[ILAWS, VALID_GROUP, A_ENT, A_HKDF, "the Lean identity spake2_agree holds in any Z-module: the order-q subgroup of (Z/p)* with a*b mod p and a^(n mod q) is one by Lean smul_add/smul_mul/smul_mul_distrib/order_*_closed; the Ed25519 curve points are one by Lean (EdwardsGroup.lean: eadd_assoc, Curve.instAddCommGroup)", "A-ae-empty: arbitrary_element(b'') is defined for the group (ground-checked for the shipped sets in C03/C18)"],
     extra=extra(lean_theorems("spake2_agree", "smul_add", "smul_mul", "smul_mul_distrib", "order_mul_closed", "order_smul_closed")))
 cfg("C02", assumptions=[ILAWS, M_SHA, A_ENT],
     not_decided=["'keys differ' as an absolute statement needs collision resistance of SHA-256 (M-sha)",
@@ -88,7 +88,7 @@ cfg("C11", assumptions=[A_ENT, A_TERM],
     extra=extra(lean_theorems("block_count", "head_count")))
 cfg("C12", assumptions=["M-prime(Q) discharged by Pratt certificate; the Lean theorems are stated under [Fact (Nat.Prime Q)]"],
     extra=extra(lambda: [o for o in ground.primality()[0] if "Q is prime" in o["name"] or "L is prime" in o["name"]]))
-cfg("C13", assumptions=[VALID_GROUP, "group axioms themselves (associativity, commutativity, distributivity) are facts about the spec operations: Lean Algebra.lean for integer groups; M-edgroup for Ed25519"],
+cfg("C13", assumptions=[VALID_GROUP, "group axioms themselves (associativity, commutativity, distributivity) are facts about the spec operations: Lean Algebra.lean for integer groups; Lean EdwardsGroup.lean (eadd_assoc, Curve.instAddCommGroup) for Ed25519"],
     extra=extra(lean_theorems("smul_add", "smul_mul", "smul_mul_distrib", "smul_zero", "smul_one", "mul_add'", "mul_distrib'", "mul_mul", "insub_add", "insub_mul")))
 cfg("C14", assumptions=[A_HKDF, A_TERM, VALID_GROUP, CONST_NOTE], extra=extra(ground.constants, ground.vectors))
 cfg("C15", assumptions=[VALID_GROUP, "A-float: math.ceil(bits/8) is exact (bits < 2**53)", "decode(encode(P)) == P on Ed25519 uses the Lean theorems xrecover_complete / xrecover_sq"])
@@ -97,6 +97,6 @@ cfg("C16", assumptions=["A-gil: the multi-threaded clause rests on the footprint
     extra=extra(_static))
 cfg("C17", assumptions=[M_SHA],
     not_decided=["'changing any single argument changes the key' as an absolute statement needs collision resistance of SHA-256; proved: equal keys imply equal arguments, modulo M-sha"])
-cfg("C18", assumptions=[CONST_NOTE, "#E(F_Q) = 8L is cited (M-edgroup); checked: 8L lies in the Hasse interval and L*Base = O"],
+cfg("C18", assumptions=[CONST_NOTE, "#E(F_Q) = 8L is cited (point counting is not done here); checked: 8L lies in the Hasse interval and L*Base = O"],
     not_decided=["primality of p1024, p2048, p3072 and q3072: no certificate obtainable offline; Miller-Rabin (probabilistic) reported under bounded_standins, not counted as discharged"],
     extra=extra(ground.constants, ground.primality))
